@@ -91,7 +91,17 @@ def _worker(args):
             return ob.fn(ctx, **params)
 
         _FUNCS.clear()
-        ex.run(fn)
+        try:
+            ex.run(fn)
+        except core.EngineError as e:
+            if ob.cap is not None and "WidthExceeded" in str(e):
+                # the code needs the true value of something tracked modulo 2**cap: redo with exact integers
+                ex = core.Explorer(rlimit=ob.rlimit, max_paths=ob.max_paths, max_decisions=ob.max_decisions,
+                                   deadline_s=ob.deadline_s, max_violations=ob.max_violations, known=known, seed=seed, cap=None)
+                ex.stats.notes.append("width cap %d exceeded; re-run with exact integers" % ob.cap)
+                ex.run(fn)
+            else:
+                raise
         st = ex.stats.as_dict()
         cand_tries = 0
         if ex.stats.inconclusive and not ex.violations:
@@ -294,11 +304,11 @@ def run_property(pid, tier="quick", seed=0, jobs=None, only=None, verbose=True):
         "%d passing traces replayed on the real code, solver %.1fs, wall %.1fs"
         % (pid, tier, len(obs), tot["paths"], tot["queries"], tot["discharged"], tot["checks"], tot["inconclusive"],
            validated, tot["solver_s"], wall))
-    if harness_errors:
-        for h in harness_errors:
-            say("HARNESS-ERROR: " + h)
-        return 2
-    return 1 if violations else 0
+    for h in harness_errors:
+        say("HARNESS-ERROR: " + h)
+    if violations:
+        return 1        # replay-confirmed on the uninstrumented code: stands regardless of harness problems elsewhere
+    return 2 if harness_errors else 0
 
 
 def _run_isolated(t):
